@@ -88,6 +88,9 @@ Write == /\ up /\ loaded # "no" /\ wpc = "idle" /\ nloc < NLocal
 \* a write on a store that has been opened and not loaded yet, at the grain of AddOperation: the entry is appended
 \* (WriteBegin), then "_localHeads" is put (WriteEnd); the owner's Load may run in between
 WriteBegin == /\ up /\ loaded = "no" /\ wpc = "idle" /\ nloc < NLocal
+              \* C01's assumption: no two entries of one writer carry the same time (a store that has not loaded does not
+              \* know the times it has used: the write is considered only where the time it takes is a new one)
+              /\ \A x \in DOMAIN clock : Writer(x) = 1 => clock[x] # Max0({lclock} \cup {clock[h] : h \in Heads(log)}) + 1
               /\ LET e == LocalId(nloc + 1)
                      t == Max0({lclock} \cup {clock[h] : h \in Heads(log)}) + 1 IN
                  /\ par' = [x \in DOMAIN par \cup {e} |-> IF x = e THEN Heads(log) ELSE par[x]]
